@@ -31,11 +31,29 @@ fn oracle(cache: &OracleCache, pos: &Pos, depth: u8, nodes: &AtomicU64) -> (Vec<
         return v.clone();
     }
     let mut n = 0u64;
-    let v = root_values(pos, depth, &mut n);
+    // depths 1..3: the plain recursion; from depth 4 the memoised one, and the first few of those
+    // are computed both ways and compared (a difference is an error of this machinery)
+    let v = if depth >= 4 {
+        let v = root_values_memo(pos, depth, &mut n, &MEMO);
+        if CROSS_CHECKED.fetch_add(1, Ordering::Relaxed) < 12 {
+            let mut n2 = 0u64;
+            let plain = root_values(pos, depth, &mut n2);
+            if plain != v {
+                eprintln!("MACHINERY-ERROR: memoised minimax differs from plain minimax at {} depth {}", pos.to_fen(), depth);
+                std::process::exit(2);
+            }
+        }
+        v
+    } else {
+        root_values(pos, depth, &mut n)
+    };
     nodes.fetch_add(n, Ordering::Relaxed);
     cache.lock().unwrap().insert(k, v.clone());
     v
 }
+
+static MEMO: std::sync::LazyLock<MinimaxMemo> = std::sync::LazyLock::new(MinimaxMemo::default);
+static CROSS_CHECKED: AtomicU64 = AtomicU64::new(0);
 
 /// compare one search outcome with the oracle; returns a violation class + detail
 fn judge(out: &Outcome, vals: &[(Move, i16)], root: Option<i16>, tag: &str) -> Option<(String, String)> {
@@ -87,6 +105,17 @@ const HIST_SEEDS: &[(&str, &str, u8, u8)] = &[
     ("kqk", "7k/8/5K2/8/8/8/8/6Q1 w - - 0 1", 3, 3),
     ("castle-base-w", "r3k2r/8/8/8/8/8/8/R3K2R w KQkq - 0 1", 2, 2),
     ("ep-legal-both", "4k3/8/8/2PpP3/8/8/8/4K3 w - d6 0 1", 3, 4),
+];
+
+/// reused-context histories at depth 4 (5 in thorough): small positions with loose material
+const SWING_SEEDS: &[(&str, &str)] = &[
+    ("rook-ending-11", "5R2/p1kr4/3p2p1/3P1P2/8/2K1P3/2P5/3r4 w - - 0 1"),
+    ("krp-kr", "8/2k5/3r4/8/3P4/2K5/8/5R2 w - - 0 1"),
+    ("minor-ending", "8/5k2/4n3/8/3B4/2K2P2/8/8 w - - 0 1"),
+    ("q-vs-rp", "8/8/4k3/3r4/4p3/2K1Q3/8/8 w - - 0 1"),
+    ("kpp-kp", "7k/7p/8/8/8/8/6PP/7K w - - 0 1"),
+    ("pawn-race", "8/p7/8/8/8/8/7P/K6k w - - 0 1"),
+    ("rook-ending-black", "3R4/2p5/2k1p3/8/3p1p2/3P2P1/P1KR4/5r2 b - - 0 1"),
 ];
 
 pub fn run(a: &Args) -> i32 {
@@ -168,10 +197,32 @@ pub fn run(a: &Args) -> i32 {
     let rounds = if thorough { 2 } else { 1 }; // number of (move, reply, search) extensions after the first search
     let mut hist_count = 0u64;
     let mut hist_samples = Vec::new();
+    let mut jobs: Vec<(&str, &str, u8)> = Vec::new();
     for (name, fen, dq, dt) in HIST_SEEDS {
-        let root = Pos::from_fen(fen).unwrap();
         let maxd = if thorough { *dt } else { *dq };
         for depth in 1..=maxd {
+            jobs.push((name, fen, depth));
+        }
+    }
+    // material changes hands within two plies in these: the value the context saw for this side
+    // in its previous search is far from (or exactly some distance from) the value now
+    for (name, fen) in SWING_SEEDS {
+        if !thorough && (name.starts_with("rook-ending") || *name == "q-vs-rp") {
+            continue; // the heavier ones: thorough tier only
+        }
+        jobs.push((name, fen, 4));
+        if thorough {
+            jobs.push((name, fen, 5));
+        }
+    }
+    for (name, fen, depth) in jobs.iter() {
+        let root = Pos::from_fen(fen).unwrap();
+        if !root.is_consistent() {
+            eprintln!("MACHINERY-ERROR: inconsistent C08 seed {}", name);
+            return 2;
+        }
+        let depth = *depth;
+        {
             // enumerate all histories root -m1-> -r1-> (search) [-m2-> -r2-> (search)]
             let mut histories: Vec<Vec<Move>> = vec![vec![]];
             for _ in 0..rounds {
@@ -356,7 +407,7 @@ pub fn run(a: &Args) -> i32 {
     rep.add("distinct_(score,move)_outcomes", outcomes.lock().unwrap().len() as u64);
     rep.samples = hist_samples;
     rep.samples.push(json!({"part": "a", "cases": ncases, "example": cases.last().map(|c| json!({"fen": c.pos.to_fen(), "depth": c.depth, "class": c.class}))}));
-    rep.bounds = json!({"brand_new_context_cases": ncases, "history_rounds": rounds, "history_seeds": HIST_SEEDS.iter().map(|s| s.0).collect::<Vec<_>>(), "endgame_depths": if thorough { "3..6" } else { "3..5" }});
+    rep.bounds = json!({"brand_new_context_cases": ncases, "history_rounds": rounds, "history_seeds": HIST_SEEDS.iter().map(|s| s.0).collect::<Vec<_>>(), "swing_seeds_depth_4_(and_5_in_thorough)": SWING_SEEDS.iter().filter(|s| thorough || !(s.0.starts_with("rook-ending") || s.0 == "q-vs-rp")).map(|s| s.1).collect::<Vec<_>>(), "oracle": "plain minimax at depths 1..3; memoised minimax from depth 4, cross-checked against the plain one on the first 12 roots", "endgame_depths": if thorough { "3..6" } else { "3..5" }});
     rep.rule = "state = (position, depth, prior searches of the context); each search is one real alpha_beta_search; its score and move are compared with an exhaustive cache-free minimax over the model's moves with the engine's leaf evaluation".into();
     rep.assumptions = vec!["half-move clocks stay far below the draw threshold (seeds start at 0)".into(), "leaf scores come from the engine's own evaluate::score (its correctness is C18's / C06's subject)".into(), "reduced LRU capacity for generators (hook)".into()];
     rep.mandatory = vec!["searches_with_brand_new_context".into(), "histories_with_reused_context".into()];
